@@ -4,14 +4,14 @@
    the peer's configured limits) and the datagrams the network saw after a close. *)
 EXTENDS EndpointTx, TraceLib
 CONSTANT KnownF7
-VARIABLE l
-tvars == <<evars, l>>
+VARIABLES l, epPending     \* epPending[e]: endpoint-level replies (stateless reset, ...) handed to the socket, not yet seen on the network
+tvars == <<evars, l, epPending>>
 IsEvent(e) == l <= NRec /\ Rec[l].ev = e /\ l' = l + 1
 
 DefaultLim == [sd_uni |-> 0, sd_bidi_remote |-> 0, sd_bidi_local |-> 0, data_window |-> 0, streams_bidi |-> 0, streams_uni |-> 0]
-TInit == EInit([e \in Ep |-> DefaultLim]) /\ l = 1
+TInit == EInit([e \in Ep |-> DefaultLim]) /\ l = 1 /\ epPending = [e \in Ep |-> 0]
 \* a new run: limits of endpoint e come from the configuration of its peer
-T_Reset == IsEvent("reset") /\ LET sc == Rec[l].sc IN EReset([e \in Ep |-> IF e = "c" THEN sc.s ELSE sc.c])
+T_Reset == IsEvent("reset") /\ LET sc == Rec[l].sc IN EReset([e \in Ep |-> IF e = "c" THEN sc.s ELSE sc.c]) /\ epPending' = [e \in Ep |-> 0]
 
 \* Known finding F7 (named deviation, enabled by the constant while the finding is listed as "known"):
 \* the connection-level "stream opened" notification - an empty STREAM frame at offset 0 for the most
@@ -22,13 +22,13 @@ KF7_OpenNotifyAfterReset(r) ==
   /\ PrintT(<<"KNOWN-FINDING", "F7">>)
   /\ UNCHANGED evars
 
-T_RxF == IsEvent("rxf") /\ LET r == Rec[l] IN
+T_RxF == IsEvent("rxf") /\ UNCHANGED epPending /\ LET r == Rec[l] IN
   CASE r.ty = "max_data" -> RxMaxData(r.ep, r.v)
     [] r.ty = "max_stream_data" -> RxMaxStreamData(r.ep, r.id, r.v)
     [] r.ty = "max_streams" -> RxMaxStreams(r.ep, r.bidi, r.v)
     [] r.ty = "conn_close" -> RxConnectionClose(r.ep)
     [] OTHER -> UNCHANGED evars
-T_TxF == IsEvent("txf") /\ LET r == Rec[l] IN
+T_TxF == IsEvent("txf") /\ UNCHANGED epPending /\ LET r == Rec[l] IN
   CASE r.ty = "stream" -> TxStream(r.ep, r.id, r.off, r.len, r.fin, r.ok) \/ KF7_OpenNotifyAfterReset(r)
     [] r.ty = "reset_stream" -> TxResetStream(r.ep, r.id, r.final)
     [] r.ty = "stream_data_blocked" -> TxStreamDataBlocked(r.ep, r.id, r.v)
@@ -37,14 +37,20 @@ T_TxF == IsEvent("txf") /\ LET r == Rec[l] IN
     [] OTHER -> TxOther(r.ep)
 T_Dg == IsEvent("dg") /\ LET r == Rec[l]
                              e == IF r.dir = "c2s" THEN "c" ELSE "s" IN
-  IF closing[e].draining THEN TxDatagramWhileDraining(e)
-  ELSE IF closing[e].on THEN TxDatagramWhileClosing(e, r.hash) ELSE UNCHANGED evars
+  \* a datagram the ENDPOINT sent on its own behalf (a stateless reset answering an unroutable datagram, e.g. the peer's
+  \* stateless reset for a late duplicate) is not one of the closing connection's datagrams
+  IF (closing[e].on \/ closing[e].draining) /\ epPending[e] > 0 /\ closing[e].hash # r.hash
+  THEN epPending' = [epPending EXCEPT ![e] = @ - 1] /\ UNCHANGED evars
+  ELSE /\ epPending' = epPending
+       /\ IF closing[e].draining THEN TxDatagramWhileDraining(e)
+          ELSE IF closing[e].on THEN TxDatagramWhileClosing(e, r.hash) ELSE UNCHANGED evars
+T_EpSent == IsEvent("endpoint_packet_sent") /\ epPending' = [epPending EXCEPT ![Rec[l].ep] = @ + 1] /\ UNCHANGED evars
 \* a datagram is handed to the endpoint (rx interceptor of the endpoint, i.e. when the endpoint takes it from its
 \* socket queue - not when the network enqueued it: a datagram queued before the close is answered after it)
-T_DgRx == IsEvent("rxd") /\ RxDatagram(Rec[l].ep)
-T_AppOpen == IsEvent("app_open") /\ AppOpen(Rec[l].ep, Rec[l].id)
+T_DgRx == IsEvent("rxd") /\ RxDatagram(Rec[l].ep) /\ UNCHANGED epPending
+T_AppOpen == IsEvent("app_open") /\ AppOpen(Rec[l].ep, Rec[l].id) /\ UNCHANGED epPending
 \* "panic" / "stall" lines have no action
 
-TNext == T_Reset \/ T_RxF \/ T_TxF \/ T_Dg \/ T_DgRx \/ T_AppOpen
+TNext == T_Reset \/ T_RxF \/ T_TxF \/ T_Dg \/ T_DgRx \/ T_AppOpen \/ T_EpSent
 TSpec == TInit /\ [][TNext]_tvars
 =============================================================================
